@@ -170,8 +170,15 @@ fn script_for(term: &mut Term, frame: &[u8], plan: &Value) -> (Vec<Vec<u8>>, Str
     let abort_rn = |code: u8| -> Vec<u8> { p::PartialReversalAbort { error: code, receipt_no: abort_receipt }.zvt_serialize() };
     match cf {
         (0x06, 0x00) => {
-            // Registration
-            if o == "abort" { frames.push(abort(code)) } else { frames.push(completion()) }
+            // Registration: a bare completion, or one that reports status byte, terminal id and currency (2.1.3)
+            if o == "abort" {
+                frames.push(abort(code))
+            } else if plan.get("rich").and_then(|b| b.as_bool()).unwrap_or(false) {
+                let tid = plan.get("terminal_id").and_then(|s| s.as_str()).unwrap_or(&term.terminal_id).parse::<usize>().unwrap_or(0);
+                frames.push(p::CompletionData { result_code: None, status_byte: Some(0), terminal_id: Some(tid), currency: Some(978) }.zvt_serialize());
+            } else {
+                frames.push(completion())
+            }
         }
         (0x0f, 0xa1) => {
             // Feig system information
